@@ -358,10 +358,13 @@ def read_headers(sock: socket.socket) -> tuple:
         if not line:
             break
         trace(line)
-        if not status:
+        if status is None:
             status_info = line.split(" ", 2)
             try:
-                status = int(status_info[1])
+                code = status_info[1]
+                if not (len(code) == 3 and code.isascii() and code.isdigit()):
+                    raise ValueError("status code is not three digits")
+                status = int(code)
             except (IndexError, ValueError):
                 raise WebSocketException(f"Invalid status line: {line[:80]!r}")
             if len(status_info) > 2:
